@@ -533,6 +533,17 @@ fn resolve_regions(
 
     // Create vftable
     let first_base = regions.iter().map(|t| &t.1).find(|r| r.is_base);
+    // Whether this type gets a vftable pointer of its own depends on the first base's vftable,
+    // which is only known once that base has been resolved.
+    if let Some(Type::Raw(base_path)) = first_base.map(|r| &r.type_ref) {
+        if semantic
+            .type_registry
+            .get(base_path)
+            .is_some_and(|t| !t.is_resolved())
+        {
+            return Ok(None);
+        }
+    }
     let (vftable, vftable_region) = vftable::build(
         semantic,
         resolvee_path,
